@@ -15,36 +15,46 @@ import (
 	"os"
 	"strings"
 
-	"github.com/idena-network/idena-go/common"
 	"github.com/idena-network/idena-go/common/pushpull"
 
 	"verifharness/internal/hx"
 )
 
 type c20ev struct {
-	K string `json:"k"` // ann arr tick loop gc dlv exp fgt state
+	K string `json:"k"`           // ann arr tick loop gc dlv exp fgt state (+ pseudo-events fill, drain)
+	L int    `json:"l,omitempty"` // lane (index into the case's lanes); tick and drain concern all lanes
 	P int    `json:"p,omitempty"`
 	H int    `json:"h,omitempty"`
 	T int64  `json:"t,omitempty"`
 }
 
-func (e c20ev) line() string {
+func (e c20ev) line(ty int) string {
 	switch e.K {
 	case "ann":
-		return fmt.Sprintf("ann %d %d", e.P, e.H)
+		return fmt.Sprintf("ann %d %d %d", ty, e.P, e.H)
 	case "arr", "exp", "fgt":
-		return fmt.Sprintf("%s %d", e.K, e.H)
+		return fmt.Sprintf("%s %d %d", e.K, ty, e.H)
 	case "tick":
 		return fmt.Sprintf("tick %d", e.T)
 	}
-	return e.K
+	return fmt.Sprintf("%s %d", e.K, ty)
 }
 
 type c20case struct {
-	Delay int64   `json:"delay"` // pullDelay, ms
-	Cap   int     `json:"cap"`   // 0: the DefaultHolder's own MaxParallelPulls (3); >0: override (TxPool/KeysPool use 1)
-	Light bool    `json:"light,omitempty"`
-	Ev    []c20ev `json:"ev"`
+	Delay int64 `json:"delay"` // pullDelay, ms
+	Cap   int   `json:"cap"`   // 0: the DefaultHolder's own MaxParallelPulls (3); >0: override (TxPool/KeysPool use 1)
+	Light bool  `json:"light,omitempty"`
+	// several entry types, each with its own holder + tracker, on one manager (all registered before Run);
+	// empty: one lane of type 4 (pushFlip) with Delay/Cap above
+	Lanes []c20lane `json:"lanes,omitempty"`
+	Ev    []c20ev   `json:"ev"`
+}
+
+func (cs *c20case) lanes() []c20lane {
+	if len(cs.Lanes) > 0 {
+		return cs.Lanes
+	}
+	return []c20lane{{Ty: c20Type, Delay: cs.Delay, Cap: cs.Cap}}
 }
 
 type c20result struct {
@@ -73,14 +83,18 @@ func fmtOuts(out []c20out) string {
 // The pseudo-event "drain" expands (adaptively, into concrete tick/loop/dlv lines) to a fair prompt schedule without
 // further input until nothing is pending.
 func c20run(cs *c20case, next func(r *rig) []c20ev) (res c20result, err error) {
-	r, err := newRig(cs.Delay, cs.Cap)
+	r, err := newRig(cs.lanes())
 	if err != nil {
 		return res, err
 	}
 	defer r.close()
-	res.newLine = fmt.Sprintf("new %d %d %d 0", cs.Delay, r.cap, pushpull.VerifMaxPendingPushes)
+	res.newLine = fmt.Sprintf("new %d 0", pushpull.VerifMaxPendingPushes)
 	res.hits = map[string]int{}
-	or := newOracle(cs.Delay, r.cap, pushpull.VerifMaxPendingPushes)
+	var ors []*c20oracle
+	for _, l := range r.lanes {
+		res.newLine += fmt.Sprintf(" %d:%d:%d", l.typ, l.delay, l.cap)
+		ors = append(ors, newOracle(int(l.typ), l.delay, l.cap, pushpull.VerifMaxPendingPushes))
+	}
 	setFail := func(f *c20fail) {
 		if f != nil && res.fail == nil {
 			res.fail = f
@@ -88,13 +102,19 @@ func c20run(cs *c20case, next func(r *rig) []c20ev) (res c20result, err error) {
 	}
 	// do runs one concrete event; false = the rig is broken, stop
 	do := func(i int, e c20ev) bool {
+		if e.L < 0 || e.L >= len(r.lanes) {
+			setFail(&c20fail{"C20:rig-error", fmt.Sprintf("event %d: no lane %d", i, e.L)})
+			return false
+		}
+		l := r.lanes[e.L]
+		ln := e.line(int(l.typ))
 		if e.K == "state" {
-			res.lines = append(res.lines, [2]string{e.line(), r.stateLine()})
+			res.lines = append(res.lines, [2]string{ln, r.stateLine(l)})
 			return true
 		}
 		var before c20snap
 		if !cs.Light {
-			before = r.snap()
+			before = r.snap(l)
 		}
 		out := r.exec(e)
 		res.outs += len(out)
@@ -104,34 +124,47 @@ func c20run(cs *c20case, next func(r *rig) []c20ev) (res c20result, err error) {
 			}
 		}
 		if r.err != "" {
-			setFail(&c20fail{"C20:rig-error", fmt.Sprintf("event %d (%s): %s", i, e.line(), r.err)})
-			res.lines = append(res.lines, [2]string{e.line(), "panic"})
+			setFail(&c20fail{"C20:rig-error", fmt.Sprintf("event %d (%s): %s", i, ln, r.err)})
+			res.lines = append(res.lines, [2]string{ln, "panic"})
 			return false
 		}
-		res.lines = append(res.lines, [2]string{e.line(), fmtOuts(out) + " | " + r.sizes()})
-		n := r.tracker.VerifPendingLen()
+		if e.K == "tick" {
+			res.lines = append(res.lines, [2]string{ln, "-"})
+		} else {
+			res.lines = append(res.lines, [2]string{ln, fmtOuts(out) + " | " + r.sizes(l)})
+		}
+		n := l.tracker.VerifPendingLen()
 		if n > res.maxPend {
 			res.maxPend = n
 		}
 		if !cs.Light {
-			after := r.snap()
-			setFail(or.observe(i, e, out, before, after, r))
+			after := r.snap(l)
+			setFail(ors[e.L].observe(i, e, ln, out, before, after))
 			switch {
 			case e.K == "gc" && len(after.Active) < len(before.Active):
 				res.hits["gc:expired-a-pull"]++
-			case e.K == "ann" && len(out) == 0 && len(after.Pending) == len(before.Pending) && !r.holder.Has(hashOf(e.H)):
+			case e.K == "ann" && len(out) == 0 && len(after.Pending) == len(before.Pending) && !l.holder.Has(hashOf(e.H)):
 				res.hits["ann:dropped(no active pull)"]++
 			case e.K == "ann" && len(out) == 0 && len(before.Pending) > 0 && len(after.Pending) > len(before.Pending) && after.Pending[0] != before.Pending[0]:
 				res.hits["ann:queued-in-front"]++
 			case e.K == "loop" && len(out) == 0 && len(after.Pending) < len(before.Pending):
 				res.hits["loop:dropped(stored or no active pull)"]++
-			case e.K == "dlv" && len(out) == 1 && r.holder.Has(hashOf(out[0].H)):
+			case e.K == "dlv" && len(out) == 1 && l.holder.Has(hashOf(out[0].H)):
 				res.hits["dlv:relay-after-arrival"]++
+			}
+			if e.K == "dlv" && len(out) == 1 && len(r.lanes) > 1 {
+				res.hits["dlv:relay-with-several-holders"]++
 			}
 		} else if n > pushpull.VerifMaxPendingPushes+1 {
 			setFail(&c20fail{"C20:pending-unbounded", fmt.Sprintf("event %d: %d pending pushes > maxPendingPushes+1", i, n)})
 		}
 		return true
+	}
+	busy := func() (n int) {
+		for _, l := range r.lanes {
+			n += l.tracker.VerifPendingLen() + len(l.fifo)
+		}
+		return
 	}
 	if next != nil && len(cs.Ev) == 0 {
 		cs.Ev = append(cs.Ev, next(r)...)
@@ -141,26 +174,31 @@ func c20run(cs *c20case, next func(r *rig) []c20ev) (res c20result, err error) {
 		if e.K == "fill" { // T announcements of hash H by peers P, P+1, …
 			ok := true
 			for k := int64(0); k < e.T && ok; k++ {
-				ok = do(i, c20ev{K: "ann", P: e.P + int(k), H: e.H})
+				ok = do(i, c20ev{K: "ann", L: e.L, P: e.P + int(k), H: e.H})
 			}
 			if !ok {
 				break
 			}
 		} else if e.K == "drain" {
-			rounds := 3*r.tracker.VerifPendingLen() + 3*len(r.fifo) + 8
-			for r.tracker.VerifPendingLen() > 0 || len(r.fifo) > 0 {
+			rounds := 3*busy() + 8
+			for busy() > 0 {
 				if rounds--; rounds < 0 {
-					setFail(&c20fail{"C20:not-drained", fmt.Sprintf("event %d: a fair prompt schedule without further input did not empty the pending list (%d left)", i, r.tracker.VerifPendingLen())})
+					setFail(&c20fail{"C20:not-drained", fmt.Sprintf("event %d: a fair prompt schedule without further input did not empty the pending lists (%d left)", i, busy())})
 					break
 				}
-				lw, _ := c20wakes()
-				ok := true
-				if lw > r.now() {
-					ok = do(i, c20ev{K: "tick", T: lw})
-				}
-				ok = ok && do(i, c20ev{K: "loop"}) && do(i, c20ev{K: "dlv"})
-				if !ok {
-					return res, nil
+				for li, l := range r.lanes {
+					if l.tracker.VerifPendingLen() == 0 && len(l.fifo) == 0 {
+						continue
+					}
+					lw, _ := r.wakes(l)
+					ok := true
+					if lw > r.now() {
+						ok = do(i, c20ev{K: "tick", T: lw})
+					}
+					ok = ok && do(i, c20ev{K: "loop", L: li}) && do(i, c20ev{K: "dlv", L: li})
+					if !ok {
+						return res, nil
+					}
 				}
 			}
 		} else if !do(i, e) {
@@ -171,19 +209,6 @@ func c20run(cs *c20case, next func(r *rig) []c20ev) (res c20result, err error) {
 		}
 	}
 	return res, nil
-}
-
-func c20wakes() (loop, gc int64) {
-	loop, gc = -1, -1
-	for _, s := range common.VerifBlockingParked() {
-		w := (s.Wake - c20T0.UnixNano()) / 1e6
-		if s.Who == "loop" {
-			loop = w
-		} else if s.Who == "gc" {
-			gc = w
-		}
-	}
-	return
 }
 
 func c20shrink(cs c20case, sig string) c20case {
@@ -200,7 +225,7 @@ func c20shrink(cs c20case, sig string) c20case {
 		changed = false
 		for chunk := len(cs.Ev) / 2; chunk >= 1; chunk /= 2 {
 			for i := 0; i+chunk <= len(cs.Ev); {
-				t := c20case{Delay: cs.Delay, Cap: cs.Cap, Light: cs.Light}
+				t := c20case{Delay: cs.Delay, Cap: cs.Cap, Light: cs.Light, Lanes: cs.Lanes}
 				t.Ev = append(append([]c20ev{}, cs.Ev[:i]...), cs.Ev[i+chunk:]...)
 				if fails(t) {
 					cs, changed = t, true
@@ -211,7 +236,7 @@ func c20shrink(cs c20case, sig string) c20case {
 		}
 		for i := range cs.Ev { // shorten fills
 			for cs.Ev[i].K == "fill" && cs.Ev[i].T > 1 {
-				t := c20case{Delay: cs.Delay, Cap: cs.Cap, Light: cs.Light, Ev: append([]c20ev{}, cs.Ev...)}
+				t := c20case{Delay: cs.Delay, Cap: cs.Cap, Light: cs.Light, Lanes: cs.Lanes, Ev: append([]c20ev{}, cs.Ev...)}
 				t.Ev[i].T = cs.Ev[i].T - (cs.Ev[i].T+9)/10
 				if !fails(t) {
 					break
@@ -276,7 +301,9 @@ func (g *c20gen) next(r *rig) []c20ev {
 	}
 	g.budget--
 	now := r.now()
-	lw, gw := c20wakes()
+	li := rng.Intn(len(r.lanes)) // the lane this batch of events concerns
+	l := r.lanes[li]
+	lw, gw := r.wakes(l)
 	var evs []c20ev
 	x := rng.Intn(100)
 	switch {
@@ -295,11 +322,11 @@ func (g *c20gen) next(r *rig) []c20ev {
 		case y < 6 && lw >= 0:
 			t = lw - 1
 		case y < 7:
-			t = now + r.delay
+			t = now + l.delay
 		case y < 8:
-			t = now + r.delay/2
+			t = now + l.delay/2
 		case y < 9:
-			t = now + r.delay + 1 + int64(rng.Intn(30))
+			t = now + l.delay + 1 + int64(rng.Intn(30))
 		case y < 10 && g.long:
 			t = gw
 		case y < 11 && g.long:
@@ -307,7 +334,7 @@ func (g *c20gen) next(r *rig) []c20ev {
 		case y == 11 && rng.Intn(4) == 0:
 			t = now - int64(rng.Intn(50)) // the clock never goes back: ignored
 		default:
-			t = now + int64(rng.Intn(int(r.delay)+10))
+			t = now + int64(rng.Intn(int(l.delay)+10))
 		}
 		if t < 0 {
 			t = 0
@@ -338,19 +365,29 @@ func (g *c20gen) next(r *rig) []c20ev {
 	default:
 		evs = append(evs, c20ev{K: "state"})
 	}
-	if len(r.fifo) > 200 { // keep the tracker's channel (capacity 1000) far from full: the manager does relay
+	if len(l.fifo) > 200 { // keep the tracker's channel (capacity 1000) far from full: the manager does relay
 		evs = append(evs, c20ev{K: "dlv"})
+	}
+	for i := range evs {
+		evs[i].L = li
 	}
 	return evs
 }
 
 func c20generate(c *hx.Ctx, maxEv int) (c20case, c20result, error) {
 	rng := c.Rng
-	cs := c20case{Delay: c20delays[rng.Intn(len(c20delays))], Cap: rng.Intn(5)}
+	var cs c20case
 	g := &c20gen{c: c, peers: 2 + rng.Intn(7), hashes: 1 + rng.Intn(6), prompt: rng.Intn(5) < 3, long: rng.Intn(4) == 0,
 		budget: 10 + rng.Intn(maxEv)}
-	if g.long && rng.Intn(2) == 0 {
-		cs.Delay = 400000
+	// 1-3 entry types (1 vote, 2 block, 3 proof, 4 flip, 5 key package, 6 tx), each with its own holder, tracker,
+	// pullDelay and MaxParallelPulls (0: the DefaultHolder's own 3), all on one manager; hash numbers are shared
+	types := rng.Perm(6)
+	for i, nl := 0, 1+rng.Intn(3); i < nl; i++ {
+		lc := c20lane{Ty: 1 + types[i], Delay: c20delays[rng.Intn(len(c20delays))], Cap: rng.Intn(5)}
+		if g.long && rng.Intn(2) == 0 {
+			lc.Delay = 400000
+		}
+		cs.Lanes = append(cs.Lanes, lc)
 	}
 	res, err := c20run(&cs, g.next)
 	return cs, res, err
@@ -393,7 +430,7 @@ func init() {
 		if c.Tier == "thorough" {
 			maxEv = 160
 		}
-		c.Rep.Rule = "random event traces (2-8 peers, 1-6 hashes, pullDelay 50 ms-400 s, MaxParallelPulls 1-4; announcements in bursts, arrivals, cache expiries, clock ticks to/around the tracker's wake-up times and minute-scale jumps, scheduling slots of the tracker goroutines loop/gc and of the manager relay either prompt or arbitrarily delayed, final fair drain) on the real PushPullManager+DefaultHolder+DefaultPushTracker under the blocking virtual clock; plus one trace that overfills maxPendingPushes; distinct = distinct traces; non-trivial = at least one deferred pull request was issued by the tracker"
+		c.Rep.Rule = "random event traces (1-3 entry types each with its own holder+tracker on one manager registered before Run, 2-8 peers, 1-6 hashes shared by the types, pullDelay 50 ms-400 s, MaxParallelPulls 1-4; announcements in bursts, arrivals, cache expiries, clock ticks to/around the tracker's wake-up times and minute-scale jumps, scheduling slots of the tracker goroutines loop/gc and of the manager relay either prompt or arbitrarily delayed, final fair drain) on the real PushPullManager+DefaultHolder+DefaultPushTracker under the blocking virtual clock; plus one trace that overfills maxPendingPushes; distinct = distinct traces; non-trivial = at least one deferred pull request was issued by the tracker"
 		for i := 0; i < n; i++ {
 			cs, res, err := c20generate(c, maxEv)
 			if err != nil {
@@ -407,8 +444,11 @@ func init() {
 					c.Rep.Distinct++
 				}
 			}
-			c.Hit(fmt.Sprintf("delay:%d", cs.Delay))
-			c.Hit(fmt.Sprintf("cap:%d", cs.Cap))
+			for _, lc := range cs.Lanes {
+				c.Hit(fmt.Sprintf("delay:%d", lc.Delay))
+				c.Hit(fmt.Sprintf("cap:%d", lc.Cap))
+			}
+			c.Hit(fmt.Sprintf("holders:%d", len(cs.Lanes)))
 			switch {
 			case res.decs == 0:
 				c.Hit("decs:0")
